@@ -228,8 +228,9 @@ def run(facts, rep, tier, ctx):
     c10.marker_rules(facts, rep, ws, prefix="R04.4m", only=("R10.3",))
     n = read_to_string_rules(facts, rep, ws, D)
     rep.floor("read_to_string obligations", n, 2)
-    # reader window (C14's read shape) and PhysicalFS open options decide which bytes come back
+    # reader window and seek bases (C14's shapes) and PhysicalFS open options decide which bytes come back
     h.read_rules(rep, "R04.r")
+    h.seek_rules(rep, "R04.r", "R04.r")
     physrules.table_o_shape(facts, rep, "R04.2p", ws)
     # the async port: same publication / session-start / length / routing clauses on its own copies of the code
     wa = World(facts, True)
@@ -249,6 +250,7 @@ def run(facts, rep, tier, ctx):
         k += c10.marker_rules(facts, A, wa, prefix="R04.4m", only=("R10.3",))
         k += read_to_string_rules(facts, A, wa, D)
         ha.read_rules(A, "R04.r")
+        ha.seek_rules(A, "R04.r", "R04.r")
         physrules.table_o_shape(facts, A, "R04.2p", wa)
         rep.floor("async-world obligations", k, 30)
     rep.assume("std Cursor / File / io::copy honour their contracts")
